@@ -4,11 +4,14 @@ static const char* SIGMA_HEX[] = {
     /* unsigned */ "00", "17", "1800", "1818", "18ff", "190100", "19ffff", "1a00010000", "1b0000000100000000",
     /* negative */ "20", "37", "38ff", "390100", "3a00010000", "3bffffffffffffffff",
     /* bytes */ "40", "41aa", "42aabb", "5801cc", "590001dd", "5f",
+    /* heads whose declared payload can never be supplied (complete header, payload length near 2^64: header + length wraps) */
+    "5bffffffffffffffff", "5bfffffffffffffff7", "7bfffffffffffffff8",
     /* text */ "60", "6161", "62c3a9", "61ff", "63e282ac", "780162", "7f",
     /* arrays */ "80", "81", "82", "9801", "990002", "9a00000001", "9bffffffffffffffff", "9f",
     /* maps */ "a0", "a1", "a2", "b801", "b90001", "bbffffffffffffffff", "bf",
     /* tags */ "c0", "d7", "d818", "d90100", "da00010000", "dbffffffffffffffff",
     /* simple / float */ "f4", "f5", "f6", "f7", "f93c00", "f97e01", "fa3f800000", "fa7fc00001", "fb3ff0000000000000", "fbfff0000000000001",
+    /* subnormals of every width */ "f90001", "fa00000001", "fb800fffffffffffff",
     /* break */ "ff",
     /* reserved / unsupported initial bytes (single byte each: keeps the code prefix-free) */
     "1c", "3f", "5c", "7e", "9d", "be", "dc", "e0", "f3", "f8", "fc", NULL};
